@@ -121,17 +121,66 @@ def race_stage(ctx, seconds):
                          "stage": "race-stress", "module": "conc", "adapter": "mem", "vh_args": [], "init": ""})
 
 
+def kvhandle_stage(ctx):
+    """spec/KVHandle.tla: keyvalue.FS at store-transaction grain. TLC enumerates every interleaving of the steps of six (thorough: seven)
+    two-goroutine programs (and checks that a write-back only ever replaces the handle's own file); every complete behaviour is
+    forced onto the real code through the controlled store's scheduling points and its results and final contents compared."""
+    vh = ctx.build()
+    sd = ctx.specdir()
+    for prog in (("p1", "p2", "p3", "p4", "p5", "p6") if ctx.tier == "quick" else ("p1", "p2", "p3", "p4", "p5", "p6", "p7")):
+        meta = tempfile.mkdtemp(prefix="meta-", dir=ctx.scratch)
+        out = os.path.join(ctx.scratch, "kvhandle-%s.json" % prog)
+        tlc_cmd = ["timeout", "900", "tlc", "-workers", "4", "-metadir", meta, "-config", "KVHandle.%s.cfg" % prog, "MC_KVHandle.tla"]
+        vh_cmd = [vh, "kvhandle", "--prog", prog, "--out", out]
+        ctx.cov["checker_cmd"].append(" ".join(tlc_cmd[2:]) + " | vh " + " ".join(vh_cmd[1:]))
+        tlc = subprocess.Popen(tlc_cmd, cwd=sd, stdout=subprocess.PIPE, stderr=subprocess.STDOUT, env=ENV)
+        h = subprocess.Popen(vh_cmd, stdin=tlc.stdout, stdout=subprocess.PIPE, stderr=subprocess.PIPE, env=ENV, text=True)
+        tlc.stdout.close()
+        try:
+            _, herr = h.communicate(timeout=1500)
+        except subprocess.TimeoutExpired:
+            h.kill()
+            tlc.kill()
+            raise Inconclusive("stage kvhandle-%s: the replay did not finish" % prog)
+        tlc.wait()
+        shutil.rmtree(meta, ignore_errors=True)
+        if not os.path.exists(out):
+            raise Inconclusive("stage kvhandle-%s: no summary (exit %s): %s" % (prog, h.returncode, herr[-1500:]))
+        sm = json.load(open(out))
+        gen, dist, ok = parse_tlc_tail(sm.get("tlc_tail", ""))
+        if not ok:
+            raise Inconclusive("stage kvhandle-%s: TLC did not complete cleanly (an invariant of the step model failed or it did not finish):\n%s" % (prog, sm.get("tlc_tail", "")[-1500:]))
+        if sm["schedules"] == 0:
+            raise Inconclusive("stage kvhandle-%s: TLC printed no behaviour" % prog)
+        ctx.cov["states"] += dist
+        ctx.cov["transitions"] += gen
+        ctx.cov["traces_validated_against_impl"] += sm["schedules"]
+        ctx.cov["stages"].append({"stage": "kvhandle-" + prog, "program": sm["text"], "model_states": dist, "behaviours_of_the_model": sm["schedules"],
+                                  "behaviours_forced_onto_the_real_code": sm["schedules"], "steps_forced": sm["steps"], "disagreements": sm["counts"]})
+        for cls, n in sorted(sm["counts"].items()):
+            e = sm["examples"][cls]
+            ex = {"history": ["t%d" % t for t in (e.get("schedule") or [])], "call": json.dumps(e["program"]), "expected": "results and final contents of the step model KVHandle.tla under this schedule",
+                  "detail": e["detail"][:1500], "state": "", "init": ""}
+            # drift: the code stops at other scheduling points than the model (another transaction structure): the model is wrong for this code
+            prop = "SPEC" if cls in ("drift", "unparsable") else "C15"
+            ctx.divs.append({"prop": prop, "sig": "kvhandle %s %s %s" % (prog, sm["text"].split(": ", 1)[-1], cls), "count": n, "example": ex, "stage": "kvhandle-" + prog,
+                             "module": "conc", "adapter": "mem", "vh_args": [], "init": "",
+                             "conc": {"program": e["program"], "schedule": e.get("schedule") or [], "gate_blobs": False, "gate_txn_ops": False, "gate_txn_end": True}})
+
+
 def c15_stages(ctx):
     if ctx.tier == "quick":
         conc_stage(ctx, "conc-2x1", "quick")
         conc_stage(ctx, "conc-2x1-txnops", "quick", txn_ops=True, only="rename")
         # the hand-picked programs with the return of every Commit as a further scheduling point
         conc_stage(ctx, "conc-tagged-txnend", "quick", txn_end=True, tagged=True, max_schedules=3000)
+        kvhandle_stage(ctx)
         race_stage(ctx, 5)
     else:
         conc_stage(ctx, "conc-2x1", "quick")
         conc_stage(ctx, "conc-2x1-txnops", "quick", txn_ops=True, max_schedules=600)
         conc_stage(ctx, "conc-tagged-txnend", "quick", txn_end=True, tagged=True, max_schedules=20000)
+        kvhandle_stage(ctx)
         conc_stage(ctx, "conc-2x1-blobs", "quick", gate_blobs=True, max_schedules=1500)
         conc_stage(ctx, "conc-3x1-2x2", "thorough", max_schedules=600)
         race_stage(ctx, 30)
